@@ -27,10 +27,17 @@ TPrioBatch == Is("PrioBatch") /\ PrioBatch(E.k, SetOf(E.picked)) /\ (E.err <=> R
 TRRBatch   == Is("RRBatch") /\ RRBatch(E.T, E.cnt) /\ Consume
 TLCWindow  == Is("LCWindow") /\ LCWindow(E.lo, E.hi, SetOf(E.results)) /\ Consume
 
+\* concurrent selections over different candidate lists on one selector: each returns a member of its own list
+TForeign  == /\ Is("Foreign") /\ E.foreign = 0 /\ E.errs = 0
+             /\ act' = "Foreign" /\ UNCHANGED <<L, gauge, rr, res, hist>> /\ Consume
+\* a top tier of 20 members over 6000 selections: every member is picked, nobody from the lower tier
+TWideTier == /\ Is("WideTier") /\ E.pickedTop = E.top /\ E.pickedLow = 0
+             /\ act' = "WideTier" /\ UNCHANGED <<L, gauge, rr, res, hist>> /\ Consume
+
 TraceInit == /\ L = <<[st |-> "unknown", pr |-> 0]>> /\ gauge = <<0>> /\ rr = 0 /\ res = 0
              /\ act = "Init" /\ hist = <<>> /\ scn = <<>> /\ l = 1
 TraceNext == TReset \/ TSelPrio \/ TSelRR \/ TSelLC \/ TInc \/ TDec \/ TGauge
-             \/ TPrioBatch \/ TRRBatch \/ TLCWindow
+             \/ TPrioBatch \/ TRRBatch \/ TLCWindow \/ TForeign \/ TWideTier
 TraceSpec == TraceInit /\ [][TraceNext]_tvars
 HW == HWMark(l)
 =============================================================================
